@@ -1,7 +1,10 @@
 SPEC = {'id': 'C03',
  'manifest': {'technique': "Coq invariant proof over a small-step model of Handler.proxy's goroutines (safety: per-direction prefix invariants; "
                            'final-state confluence) + loopback relay harness comparing final states',
-              'level_text': 'Safety and final-state theorems over all chunkings and interleavings of the modelled steps of proxy(); the real handler '
-                            'is run over loopback sockets with all half-close orders and compared with the predicted final state.',
+              'level_text': 'Safety (prefix invariants in every reachable state, faults included), finality, termination and progress theorems over '
+                            'all chunkings and interleavings of the modelled steps of proxy(); half-close is proved offered for every chain of this '
+                            "repository's wrappers (method sets read from the source by l4gen). The real handler is run over loopback TCP, "
+                            'unix-socket and TLS upstreams, scripted downstreams (data+error in one Read), client/peer resets, late writes, all '
+                            'half-close orders, behind throttle/proxy_protocol/tee, and compared with the final state the model predicts.',
               'level_note': 'Partial: goroutine scheduling, TCP back-pressure and socket semantics are modelled as arbitrary interleavings of atomic '
-                            'steps.'}}
+                            'steps; UDP and TLS record layers are not modelled.'}}
